@@ -25,6 +25,27 @@ def canary_no421(traces):
                 return c, 'timed-out session closed without a 421'
 
 
+def canary_relay_late(traces):
+    for tr in traces:
+        for j, e in enumerate(tr['ev']):
+            if e['t'] == 'ret' and any(x['t'] == 'peer' and x['act'] == 'stall' for x in tr['ev'][:j]):
+                c = copy.deepcopy(tr)
+                c['ev'][j]['now'] = tr['cfg']['deadline'] + 1
+                return c, 'relay attempt ended one second after its deadline'
+
+
+def canary_relay_hung(traces):
+    for tr in traces:
+        rets = [j for j, e in enumerate(tr['ev']) if e['t'] == 'ret']
+        if rets and any(x['t'] == 'peer' and x['act'] == 'stall' for x in tr['ev']):
+            c = copy.deepcopy(tr)
+            del c['ev'][rets[0]]
+            for e in c['ev']:
+                if e['t'] == 'end':
+                    e['hung'] = 1
+            return c, 'relay attempt never ended'
+
+
 def run(tier):
     wd = workdir('C14')
     return flow.standard(
@@ -34,12 +55,16 @@ def run(tier):
              '(silence, partial command line byte by byte, complete data lines, lone dot, bare CR ...) x three trickle '
              'intervals, command timeout 10 and data timeout 25 under virtual time; the deadline is computed from the '
              'statement (last completed command + command timeout; 354 + data timeout, cumulative); '
-             'non-trivial = at least one byte trickled during the stall',
-        trigger=lambda tr: tr['cfg'].get('npieces', 0) > 0,
+             'relay side: the downstream goes silent at connect, banner, EHLO/LHLO (and HELO fallback), MAIL, each RCPT, DATA and '
+             'end-of-data (per recipient for LMTP), PIPELINING on/off, SMTP/LMTP, 1-2 recipients, with and without an earlier '
+             'rejected recipient; a pipe child that outlives its timeout; '
+             'non-trivial = at least one byte trickled during the stall, or a relay-side stall',
+        trigger=lambda tr: tr['cfg'].get('npieces', 0) > 0 or 'stage' in tr['cfg'],
         assumptions=['virtual time: every gevent Timeout is driven by harness/vt.py, the clock is advanced to each trickle '
                      'instant and then to the timer deadlines'],
         trusted=['TLC 1.8', 'CommunityModules Json/IOUtils', 'harness/sdrv.py', 'harness/vt.py'],
-        wd=wd, clause_filter=lambda c: c.startswith('C14_'))
+        wd=wd, clause_filter=lambda c: c.startswith('C14_'),
+        extras=[{'driver': 'c14r', 'module': 'Trace_Relay', 'cfg': 'Trace_Relay.cfg', 'canaries': [canary_relay_late, canary_relay_hung]}])
 
 
 def replay(path):
